@@ -1,5 +1,18 @@
 use crate::find_parser::prelude::*;
 
+/// A size is only usable if its byte count (count times unit) fits the integer used to store it
+fn fits_in_bytes(size: &Size) -> bool {
+    let (Size::Byte(s)
+    | Size::Word(s)
+    | Size::Block(s)
+    | Size::KiloByte(s)
+    | Size::MegaByte(s)
+    | Size::GigaByte(s)
+    | Size::TeraByte(s)) = size;
+
+    s.checked_mul(size.mult()).is_some()
+}
+
 impl Parseable for Size {
     fn parse(input: &mut &str) -> PResult<Size> {
         alt((
@@ -12,14 +25,15 @@ impl Parseable for Size {
                 'G' => Size::GigaByte(num),
                 'T' => Size::TeraByte(num),
                 _ => unreachable!(),
-            }),
+            })
+            .verify(fits_in_bytes),
             // Not very pretty, we check for a [0-9]+[a-z]+ and if met then fail with the proper
             // error. We do this once all the valid specs have been checked but before we attempt a
             // specless parse, doing so would end up leaving some junk in the input
             terminated(digit1, alpha1)
                 .and_then(cut_err(fail.context(expected("invalid_size_specifier")))),
             // Default. For Size this is Block
-            u64::parse.map(Size::Block),
+            u64::parse.map(Size::Block).verify(fits_in_bytes),
         ))
         .context(label("size"))
         .parse_next(input)
